@@ -342,8 +342,18 @@ func dqEscape(s string, extra map[string]string) string {
 			b.WriteString(`\n`)
 		case r == '\t':
 			b.WriteString(`\t`)
-		case r < 0x20:
+		case r == 0x1b:
+			b.WriteString(`\e`)
+		case r < 0x20 || r == 0x7f:
 			b.WriteString(fmt.Sprintf(`\x%02x`, r))
+		case r == 0x85:
+			b.WriteString(`\N`)
+		case r == 0xa0:
+			b.WriteString(`\_`)
+		case r == 0x2028:
+			b.WriteString(`\L`)
+		case r == 0x2029:
+			b.WriteString(`\P`)
 		default:
 			b.WriteRune(r)
 		}
